@@ -433,16 +433,36 @@ def UOp.awaits : UOp → Bool
   | .closeExitSockets => true
   | _ => false
 
-/-- One statement of `unload`.  While the statement is suspended and the task manager is still up, in-flight handlers
-    (a CREATE that arrived just before, …) may open `acq pc` further exit sockets — after the statement's own effect. -/
+/-- is `l` registered anywhere in the registry (generic or prefix listener)? -/
+def Reg.lists (r : Reg) (l : Lid) : Bool := r.listeners.contains l || r.pmap.any (fun e => e.2.contains l)
+
+/-- Can a further exit socket still be opened?  A CREATE / data cell that is DELIVERED does it (synchronous handlers, they do not
+    look at the shutdown flag) — possible while the overlay or its proxy is still registered; and handlers that are already
+    in flight as tasks do it — possible until the task manager has cancelled them. -/
+def UState.canAcquire (s : UState) : Bool := !s.tmDown || s.w.inner.lists s.self || s.w.inner.lists s.proxy
+
+/-- One statement of `unload`.  While the statement is suspended and sockets can still be acquired, the adversary opens
+    `acq pc` further exit sockets — after the statement's own effect. -/
 def UState.step (sleeps : RemKind → Bool → Bool) (acq : Nat → Nat) (s : UState) (op : UOp) : UState :=
   let s1 := s.core sleeps op
-  if op.awaits && !s1.tmDown then
+  if op.awaits && s1.canAcquire then
     { s1 with pc := s.pc + 1, openExit := s1.openExit + acq s.pc, exits := s1.exits + acq s.pc }
   else { s1 with pc := s.pc + 1 }
 
 def UState.run (sleeps : RemKind → Bool → Bool) (acq : Nat → Nat) (s : UState) (script : List UOp) : UState :=
   script.foldl (UState.step sleeps acq) s
+
+/-- statements after which nothing can be delivered to / run for the overlay any more, once all of them have happened -/
+def UOp.isClosing : UOp → Bool
+  | .tmShutdown => true
+  | .removeSelf => true
+  | .removeProxy => true
+  | _ => false
+
+/-- the statements after the LAST closing statement -/
+def afterClosing : List UOp → List UOp
+  | [] => []
+  | op :: rest => if rest.any UOp.isClosing then afterClosing rest else if op.isClosing then rest else op :: rest
 
 /-- the statements after the (first) task-manager shutdown -/
 def afterTm : List UOp → List UOp
